@@ -25,7 +25,7 @@ def gen_fit_case(rng, i, quant=None, family=None, eps=None, scalar=None):
     start = [round_to(v, sc) for v in start]
     c["model"]["init"] = [hx(v, sc) for v in start]
     cfg = fits.solver_cfg(rng, sc)
-    c["ops"] = [["observe"], ["fit", cfg], ["observe"], ["jac_quiet"], ["ref_current"], ["tables"]]
+    c["ops"] = [["observe"], ["fit", cfg], ["observe"], ["jac_quiet"], ["ref_current"], ["tables"], ["svd"]]
     c["meta"]["kind"] = kind
     c["meta"]["cfg"] = cfg
     return c
@@ -92,6 +92,10 @@ def main(tier, seed, replay=None):
         c = gen_fit_case(rng, i, quant=(8 if i % 2 else None), scalar=("f32" if i % 4 == 3 else "f64"))
         scale_up_for_eps(rng, c)
         cases.append(c)
+    # recorded past disagreements run first (corpus): two fits over a rank-deficient basis on which the nalgebra finding shows
+    cp = os.path.join(ROOT, "corpus", "c04_fits.json")
+    if os.path.exists(cp):
+        cases = json.load(open(cp)) + cases
     for i, c in enumerate(cases):
         c["id"] = i
     results = run_harness(binp, "scenario", cases, workdir, timeout_ms=20000)
@@ -146,7 +150,13 @@ def main(tier, seed, replay=None):
         nhist[code] = nhist.get(code, 0) + 1
         if code in (3, 4, 5, 8):
             from . import states
+            # the open finding of C01/C02 (nalgebra's SVD not a decomposition on some exactly rank-deficient matrices) also shows in
+            # the final state of fits over such bases; attributed under the same narrow rule
+            fi = [k for k, o in enumerate(c["ops"]) if o[0] == "fit"][0]
+            stp = r["steps"]
             key = None
+            if rd and len(stp) > fi + 5 and stp[fi + 5]["op"] == "svd" and states.nalgebra_defect(c, stp[fi + 4]["v"], stp[fi + 5]["v"]):
+                key = "nalgebra-svd-not-a-decomposition"
             run.violation("fit: final state — %s" % (states.RD_TEXT.get(code) if rd else num.state_code_text(code)),
                           {"case": c, "implementation": r, "coq_term": t}, key=key)
     outs = coq_eval("C04", fits.HEADER, terms, typ="LN")
